@@ -25,11 +25,27 @@ What is proved here, for ALL configurations / operation sequences / payloads in 
   `height × (1 + row bytes)` with filter bytes ≤ 4) holds for every back-end of the form "filter each
   row somehow, then compress" whose compressor the inflater inverts — via `Png.C03.scanlines_roundtrip`'s
   underlying lemma.  Together: `C12_writer_conformant`.
-* `C12_stream_partial`: the stream writer on a still picture, every buffer size ≥ 1, every partition of
-  the data, every interleaving of flushes: same skeleton as `write_image_data`, payload = the
-  compressor's output.
-* The full statement is still FALSE for the stream writer: `C12_stream_animated_counterexample` (D13),
-  `C12_stream_abandoned_counterexample` (N10).
+* `C12_stream_partial`: the stream writer IN GENERAL (since the repairs d0d021f … 9136341 of the
+  `StreamWriter` family: chunk kind, counting, `finish_image`, row buffers per frame, minimum chunk
+  buffer, `set_fctl`, validation in `new`).  Programs over both APIs: any number of borrowed stream-writer
+  sessions (`stream_writer_with_size`) mixed with `write_image_data`, frame setters of both writers,
+  pass-through chunks; closed by `Writer::finish`, by a drop, or by an owned stream writer
+  (`into_stream_writer_with_size`) that is finished or dropped.  Still pictures and animations, default
+  image separate or not, sub-frames; EVERY requested chunk buffer size (0, 1, … — the crate rounds up to
+  5 bytes), every way of cutting the rows into `write` calls, flushes anywhere.  Inside the domain nothing
+  panics and the chunks in the sink satisfy every sequencing rule of the validator, with the image rule
+  applied to every image's concatenated payload.  The proof shows that a complete stream image leaves
+  the `Writer` in exactly the state `write_image_data` leaves it in for the same zlib stream cut the
+  same way (`HeaderRel.sim`), so everything known about `Writer` carries over.
+  It stays `_partial` for two reasons: (1) the domain asks that every session is COMPLETE — after its
+  last operation the stream writer stands between two images (`SessionComplete`; for a session ended
+  with `finish()` this is exactly "`finish` did not return `MissingData`").  Without that the statement
+  is false: `C12_stream_abandoned_counterexample` (N10, open).  (2) `Cfg.Small`: the canvas has fewer than
+  2^61 pixels, so that `next_frame_info`'s `usize` product is exact (8 bytes per pixel at most).
+* `C12_stream_payload` / `C12_stream_conformant_partial`: the contract asked of the streaming back-end
+  holds for every filter choice and every compressor the inflater inverts, with the image rule of the
+  specification — the rows reach the compressor filtered against the right predecessor (an all-zero row
+  of the frame's width for the first row of every frame).
 
 Not proved in Lean (tied by the harness instead): `parseStrict (fileBytes chunks) = chunks` (byte
 framing and CRC), the placement pass `orderOk` and the payload pass `contentOk` for the model's
@@ -78,56 +94,90 @@ theorem C12_writer_conformant (compress : Bytes → Bytes) (inflate : Bytes → 
       skeletonOfChunks (specImgOk inflate c.color c.depth) c.width c.height c.color rest = .ok () :=
   (writer_skeleton_valid _ _ c hw (scanCodec_ok compress inflate choose c.color c.depth hic hnil) ops fin hdom).2.2.2
 
-/-- **C12 for `StreamWriter` on a still picture (partial: no animation).**  `write_header`, one
-    `stream_writer_with_size(size ≥ 1)` session that writes exactly the image in pieces of ANY sizes with
-    any `flush` calls and (refused) setter calls in between, ended by `finish()` or by a drop, then the
-    `Writer` goes out of scope.  For every chunk buffer size, every compressor: no call fails or
-    panics, and the sink holds the header chunks followed by IDAT chunks ONLY (none empty, no
-    fcTL/fdAT, no sequence numbers — the same skeleton as `write_image_data`) followed by IEND; the
-    IDAT payloads concatenate to everything the streaming compressor produced up to and including
-    its `finish` — nothing lost, duplicated or reordered by `ChunkWriter` and flate2's output buffer —
-    and the skeleton is valid whenever that zlib stream satisfies the image rule.  (`hpal`: an indexed
-    image has a palette — otherwise `StreamWriter::new` refuses with `NoPalette`, repair 90b6476.) -/
-theorem C12_stream_partial (imgOk : ImgRule) (E : Codec) (Z : ZCodec) (c : Cfg) (hw : c.WellFormed)
-    (hstill : c.actl = none) (hpal : c.color = 3 → c.palette.isSome = true)
-    (hh : (writeHeader c {}).2 = .ok) (size : Nat) (hs : 0 < size) (ops : List SOp)
-    (hfit : (rawRowLengthFromWidth c.color c.depth c.width - 1) * c.height < 2 ^ 64)
-    (htot : totalWritten ops = (rawRowLengthFromWidth c.color c.depth c.width - 1) * c.height) (fin : Final) :
-    (runProg E Z c {} [.stream size ops fin] .drop).header = .ok ∧
-    (runProg E Z c {} [.stream size ops fin] .drop).results.any anyPanic = false ∧
-    (∀ rs ∈ (runProg E Z c {} [.stream size ops fin] .drop).results, rs.getLast? = some .ok) ∧
-    ∃ (ds : List Bytes) (hist : List ZOp),
-      (runProg E Z c {} [.stream size ops fin] .drop).state.sink.chunks =
-        headerChunks c ++ ds.map mkIdat ++ [iendChunk] ∧
-      ds.flatten = outs Z (hist ++ [ZOp.finish]) ∧ (∀ d ∈ ds, d ≠ []) ∧
-      (ds ≠ [] → imgOk c.width c.height ds.flatten = .ok () →
-        skeletonOfChunks imgOk c.width c.height c.color ((headerChunks c).tail ++ ds.map mkIdat ++ [iendChunk]) = .ok ()) :=
-  stream_still_valid imgOk E Z c hw hstill hpal hh size hs ops hfit htot fin
+/-- **C12 for programs that use `StreamWriter` (partial: every session complete, canvas < 2^61 pixels).**
+    `StreamDomain`: `write_header` succeeds; all arguments are in their types' ranges (raw chunks are
+    private ancillary ones); every stream-writer session — borrowed ones among the steps, an owned one
+    at the end — is complete: after its last operation no image is left unfinished (`SessionComplete`;
+    a session whose `new` is refused started nothing).  `declaredWritten`: at the end the number of
+    images written (by either API) is the declared one.  The chunk buffer sizes, the partition of the
+    rows into `write` calls, the flushes, the setter calls (of either writer, in or out of bounds) and the
+    way every session and the program end (`finish` or drop) are arbitrary.  Then: `write_header` is `Ok`,
+    no call panics, and the sink's chunks are `IHDR :: rest` with `rest` accepted by the sequencing
+    automaton under the image rule. -/
+theorem C12_stream_partial (imgOk : ImgRule) (E : Codec) (Z : ZCodec) (c : Cfg) (hw : c.WellFormed) (hsm : c.Small)
+    (hE : Codec.Ok imgOk E c.color c.depth) (hZ : ZCodec.Ok imgOk Z c.color c.depth)
+    (steps : List Step) (fin : PFinal) (hdom : StreamDomain E Z c steps fin)
+    (hcount : (runProg E Z c {} steps fin).declaredWritten) :
+    (runProg E Z c {} steps fin).header = .ok ∧
+    (runProg E Z c {} steps fin).results.any anyPanic = false ∧
+    anyPanic (runProg E Z c {} steps fin).final = false ∧
+    ∃ rest, (runProg E Z c {} steps fin).state.sink.chunks = mkIhdr c :: rest ∧
+      skeletonOfChunks imgOk c.width c.height c.color rest = .ok () :=
+  stream_skeleton_valid imgOk E Z c hw hsm hE hZ steps fin hdom hcount
 
-/-- The property for the stream writer: every program that writes the declared images through
-    stream writers and ends successfully leaves a valid skeleton. -/
-def C12_stream_statement : Prop :=
-  ∀ (c : Cfg) (size : Nat) (ops : List SOp),
-    c.WellFormed → (runProg toyCodec toyZ c {} [] (.intoStream size ops .finish)).final.all (· == .ok) = true →
-    runSkeletonOk c (runProg toyCodec toyZ c {} [] (.intoStream size ops .finish)).state = true
+/-- the core of the proof, as a statement of its own: on a sink that never fails, the frame header
+    `ChunkWriter::write_header` writes, followed by ANY cut `ds` of a zlib stream into data chunks and the
+    image counter, is exactly what `write_image_data` does with the same stream and the same cut
+    (`wH`: the `Writer` after the header; `fd`: the image goes into fdAT chunks) -/
+theorem C12_stream_simulates_writer {wpre : WState} (cap : Nat) (curr : Ty) (hg : wpre.sink.good)
+    (ha : ∀ f, wpre.fctl = some f → wpre.animWritten + 1 < 2 ^ 32) :
+    ∃ wH, CW.writeHeader ⟨wpre, cap, [], curr⟩ = (⟨wH, cap, [], chunkKind wpre⟩, .ok) ∧
+      ∀ ds : List Bytes, emitImage wpre ds ds =
+        (incrementImagesWritten { (if (chunkKind wpre == tyFDAT) = true then bumpSeq wH ds.length else wH) with
+          sink := (wH.sink.emitChunks (dataChunks (chunkKind wpre == tyFDAT) (seq0Of wH) ds)).1 }, .ok) :=
+  let ⟨wH, h1, h2, _⟩ := writeHeader_rel cap curr hg ha
+  ⟨wH, h1, h2.sim⟩
 
-/-- D13: two frames 1×1 through `into_stream_writer`: all calls `Ok`, the second image is emitted
-    as IDAT and the sequence numbers 1, 2, 3 sit inside the IDAT payloads -/
-theorem C12_stream_animated_counterexample :
-    runD13.final = [.ok, .ok, .ok, .ok] ∧
-    runD13.state.sink.chunks.map (·.ty) = [tyIHDR, tyACTL, tyFCTL, tyIDAT, tyFCTL, tyIDAT, tyIEND] ∧
-    (runD13.state.sink.chunks.map (·.data.take 4)).drop 3 = [[0, 0, 0, 1], [0, 0, 0, 2], [0, 0, 0, 3], []] ∧
-    ¬ C12_stream_statement := by
-  refine ⟨runD13_facts.1, runD13_facts.2.1, runD13_facts.2.2.1, fun h => ?_⟩
-  have := h (cfgAnim 2) 64 [.write [7], .write [9]] (by decide) (by decide)
-  rw [show runProg toyCodec toyZ (cfgAnim 2) {} [] (.intoStream 64 [.write [7], .write [9]] .finish) = runD13 from rfl,
-    runD13_facts.2.2.2] at this
-  cases this
+/-- the streaming back-end: any filter choice, any compressor inverted by the inflater (it may hold
+    back its output as long as it likes) meets the contract with the image rule of the specification -/
+theorem C12_stream_payload (compress : Bytes → Bytes) (inflate : Bytes → Option Bytes)
+    (choose : Bytes → Bytes → FilterType) (color depth : Nat)
+    (hic : ∀ x, inflate (compress x) = some x) (hnil : inflate [] = none) :
+    ZCodec.Ok (specImgOk inflate color depth) (scanZ compress choose) color depth :=
+  scanZ_ok compress inflate choose color depth hic hnil
 
-/-- N10: a stream writer that is opened and dropped still emits an IDAT chunk -/
+/-- skeleton and payload together for programs over both APIs -/
+theorem C12_stream_conformant_partial (compress : Bytes → Bytes) (inflate : Bytes → Option Bytes)
+    (choose chooseZ : Bytes → Bytes → FilterType) (hic : ∀ x, inflate (compress x) = some x) (hnil : inflate [] = none)
+    (c : Cfg) (hw : c.WellFormed) (hsm : c.Small) (steps : List Step) (fin : PFinal)
+    (hdom : StreamDomain (scanCodec compress choose) (scanZ compress chooseZ) c steps fin)
+    (hcount : (runProg (scanCodec compress choose) (scanZ compress chooseZ) c {} steps fin).declaredWritten) :
+    ∃ rest, (runProg (scanCodec compress choose) (scanZ compress chooseZ) c {} steps fin).state.sink.chunks
+        = mkIhdr c :: rest ∧
+      skeletonOfChunks (specImgOk inflate c.color c.depth) c.width c.height c.color rest = .ok () :=
+  (stream_skeleton_valid _ _ _ c hw hsm (scanCodec_ok compress inflate choose c.color c.depth hic hnil)
+    (scanZ_ok compress inflate chooseZ c.color c.depth hic hnil) steps fin hdom hcount).2.2.2
+
+/-- `C12_stream_partial` WITHOUT the requirement that every session is complete: arguments in range, the
+    declared number of images written at the end — stated for the most permissive image rule. -/
+def C12_stream_abandoned_statement : Prop :=
+  ∀ (c : Cfg) (steps : List Step) (fin : PFinal), c.WellFormed → c.Small →
+    (∀ s ∈ steps, s.inRange) → fin.inRange →
+    (runProg toyCodec toyZ c {} steps fin).header = .ok →
+    (runProg toyCodec toyZ c {} steps fin).declaredWritten →
+    runSkeletonOk c (runProg toyCodec toyZ c {} steps fin).state = true
+
+/-- N10 (open): a stream writer that is opened and dropped (or `finish`ed with `MissingData`) before its
+    image is complete leaves that image's fcTL and the beginning of its data in the file and counts the
+    fcTL as a frame, but not the image; the `Writer` carries on.  Two frames declared: frame 1, an
+    abandoned session, frame 2 — every call returns `Ok`, two images are counted, and the file has three
+    fcTL chunks (the validator refuses it under every image rule).  The still-picture variant leaves a
+    stray IDAT chunk in front of the image's own. -/
 theorem C12_stream_abandoned_counterexample :
+    ¬ C12_stream_abandoned_statement ∧
+    runN10a.results = [[.ok], [.ok, .ok], [.ok]] ∧ runN10a.final = [.ok] ∧ runN10a.state.imagesWritten = 2 ∧
+    runN10a.state.sink.chunks.map (·.ty) =
+      [tyIHDR, tyACTL, tyFCTL, tyIDAT, tyFCTL, tyFDAT, tyFCTL, tyFDAT, tyIEND] ∧
     runN10.final = [.ok] ∧ runN10.state.sink.chunks.map (·.ty) = [tyIHDR, tyIDAT, tyIDAT, tyIEND] :=
-  ⟨runN10_facts.2.1, runN10_facts.2.2⟩
+  ⟨stream_abandoned_skeleton_counterexample, runN10a_facts.1, runN10a_facts.2.1, runN10a_facts.2.2.1,
+    runN10a_facts.2.2.2.1, runN10_facts.2.1, runN10_facts.2.2⟩
+
+/-- the former counterexample D13 (two frames through `into_stream_writer`) is inside the domain now
+    and valid: IDAT for the first frame, fdAT for the second -/
+theorem C12_stream_animated_repaired :
+    runD13.final = [.ok, .ok, .ok, .ok] ∧
+    runD13.state.sink.chunks.map (·.ty) = [tyIHDR, tyACTL, tyFCTL, tyIDAT, tyFCTL, tyFDAT, tyIEND] ∧
+    runSkeletonOk (cfgAnim 2) runD13.state = true := runD13_facts
 
 /-! non-vacuity: the hypotheses hold on non-trivial values; the repaired behaviour on the former
     counterexamples -/
@@ -153,11 +203,19 @@ example : let c : Cfg := { width := 2, height := 2, actl := some (2, 0), fctl :=
 example : withInfo cfgSeq5 = .ok { cfgSeq5 with fctl := some { w := 1, h := 1 } } ∧
     withInfo cfgOff = .error .outOfBounds ∧ withInfo cfgW0 = .error .zeroWidth :=
   ⟨withInfo_facts.1, withInfo_facts.2.1, withInfo_facts.2.2.1⟩
-set_option maxRecDepth 100000 in
-example : let c : Cfg := { width := 2, height := 2 }
-    c.WellFormed ∧ (writeHeader c {}).2 = .ok ∧ totalWritten [.write [1], .flush, .write [2, 3, 4]] = 4 ∧
-    (runProg toyCodec toyZ c {} [.stream 5 [.write [1], .flush, .write [2, 3, 4]] .finish] .drop).state.sink.chunks.map (·.ty)
-      = [tyIHDR, tyIDAT, tyIDAT, tyIEND] := by decide
+/-- the domain of `C12_stream_partial` on a program that uses everything: four frames on a 2x2 canvas —
+    `write_image_data`; two frames through one borrowed stream writer with a requested buffer of 0 bytes,
+    single-byte writes, a flush, every frame setter with non-default values between the frames (the next
+    frame is a 1x1 sub-frame at (1,1)); the last frame through an owned stream writer, `finish` -/
+example : cfgAnim4.WellFormed ∧ cfgAnim4.Small ∧ StreamDomain toyCodec toyZ cfgAnim4 stepsMixed finMixed ∧
+    runMixed.declaredWritten ∧ runSkeletonOk cfgAnim4 runMixed.state = true :=
+  ⟨runMixed_facts.1, runMixed_facts.2.1, runMixed_facts.2.2.1, runMixed_facts.2.2.2.1, runMixed_facts.2.2.2.2.2.2.2⟩
+/-- a still picture through a borrowed stream writer (1-byte buffer request, a refused flush in the middle
+    of a row), the session dropped, the `Writer` finished -/
+example : StreamDomain toyCodec toyZ { width := 2, height := 2, validate := true }
+      [.stream 1 [.write [1, 2, 3], .flush, .write [4]] .drop] .finish ∧ runStill.declaredWritten :=
+  ⟨runStill_facts.1, runStill_facts.2.1⟩
+example : Codec.Ok anyImg toyCodec 0 8 ∧ ZCodec.Ok anyImg toyZ 0 8 := ⟨toyCodec_ok 0 8, toyZ_ok 0 8⟩
 example : ∃ inflate : Bytes → Option Bytes, (∀ x, inflate ((120 : UInt8) :: x) = some x) ∧ inflate [] = none :=
   ⟨fun z => match z with | [] => none | _ :: x => some x, fun _ => rfl, rfl⟩
 
